@@ -233,15 +233,20 @@ TzData synth_zone(uint64_t recipe_seed) {
   }
   if (d.version != '\0') {
     int mode = static_cast<int>(r.below(10));
+    const TzType& lt = d.types[d.idx.empty() ? 0 : d.idx.back()];
     if (mode < 2) d.footer = "";
-    else if (mode < 5) {
+    else if (mode < 5 && !lt.isdst) {
       // std-only footer consistent with the last transition's type (or type 0).
-      const TzType& lt = d.types[d.idx.empty() ? 0 : d.idx.back()];
       std::string ab = d.abbrs.c_str() + lt.abbrind;
       if (ab.empty()) ab = "UTC";
       d.footer = fmt_abbr(ab) + fmt_off(-lt.utoff);
     } else {
-      d.footer = gen_posix_footer(&r, true);
+      // A DST rule footer (std-only and all-year-DST sentences must match the last type to be accepted,
+      // so they are left to the fault injector).
+      for (int tries = 0; tries < 20; ++tries) {
+        d.footer = gen_posix_footer(&r, true);
+        if (d.footer.find(',') != std::string::npos && d.footer.find(",0/0,J365") == std::string::npos) break;
+      }
     }
   }
   return d;
